@@ -13,6 +13,9 @@ func pathPool(r *sim.Rand, profile string, n int) []string {
 	if profile == "tiny" {
 		alpha = "01af"
 	}
+	if profile == "dense" { // few symbols, one length: deep, densely branching tries
+		alpha = []string{"01", "01", "0a", "012"}[r.Intn(4)]
+	}
 	rnd := func(l int) string {
 		b := make([]byte, l)
 		for i := range b {
@@ -21,10 +24,15 @@ func pathPool(r *sim.Rand, profile string, n int) []string {
 		return string(b)
 	}
 	fixedLen := []int{4, 8, 8, 16, 64}[r.Intn(5)]
+	if profile == "dense" {
+		fixedLen = []int{4, 6, 6, 8}[r.Intn(4)]
+	}
 	var pool []string
 	for len(pool) < n {
 		var p string
 		switch profile {
+		case "dense":
+			p = rnd(fixedLen)
 		case "fixed":
 			if len(pool) > 0 && r.Chance(2, 3) {
 				// share a prefix of random length with an existing path
@@ -76,7 +84,7 @@ func pathPool(r *sim.Rand, profile string, n int) []string {
 		}
 		pool = append(pool, p)
 	}
-	if profile != "fixed" && r.Chance(1, 3) {
+	if profile != "fixed" && profile != "dense" && r.Chance(1, 3) {
 		pool[r.Intn(len(pool))] = ""
 	}
 	return pool
@@ -107,16 +115,16 @@ func genValue(r *sim.Rand, profile string, n int) []byte {
 }
 
 type genCfg struct {
-	prop               string
-	nOps               int
-	pool               []string
-	valProfile         string
-	children           bool
-	setver             bool
-	wIns, wDel, wGet   int
-	wIter, wEmpty      int
-	wChild, wClose     int
-	big                bool
+	prop             string
+	nOps             int
+	pool             []string
+	valProfile       string
+	children         bool
+	setver           bool
+	wIns, wDel, wGet int
+	wIter, wEmpty    int
+	wChild, wClose   int
+	big              bool
 }
 
 // GenTree generates a script for the tree world for the given property.
@@ -124,11 +132,14 @@ func GenTree(prop string, r *sim.Rand, tier string) sim.Script {
 	s := &TreeScript{Prop: prop}
 	s.Store = []string{"mem", "lvlmem", "lvlp", "p"}[r.Intn(4)]
 	s.Cache = []string{"own", "own", "shared"}[r.Intn(3)]
+	if r.Chance(1, 2) {
+		s.Observe = "fresh"
+	}
 	s.Ver = int64(1 + r.Intn(50))
 	if r.Chance(1, 10) {
 		s.Ver = int64(r.U64() >> 2)
 	}
-	profile := []string{"tiny", "tiny", "fixed", "mixed"}[r.Intn(4)]
+	profile := []string{"tiny", "tiny", "fixed", "mixed", "dense"}[r.Intn(5)]
 	long := tier == "thorough" && r.Chance(1, 40)
 	nOps := 1 + r.Intn(40)
 	nPool := 2 + r.Intn(10)
@@ -179,7 +190,7 @@ func GenTree(prop string, r *sim.Rand, tier string) sim.Script {
 	if c.children {
 		c.wChild, c.wClose = 6, 7
 	}
-	open := []int{0}     // open trie ids
+	open := []int{0} // open trie ids
 	parent := map[int]int{0: -1}
 	next := 1
 	n := 0
